@@ -171,7 +171,7 @@ def run_check(prop, streams, argv, level_text='', trusted_base=(), assumptions=(
         try:
             lits = [st.emit(c) for c in cases]
             model_obs = core.run_model('%s-%s' % (prop, st.name), st.imports, st.case_type, st.run_fn, lits,
-                                       prelude=st.prelude)
+                                       prelude=st.prelude, shard=getattr(st, 'shard', 250))
         except core.BuildError as e:
             broken.append('model evaluation (%s): %s %s' % (st.name, e.what, e.log[-1500:]))
             model_obs = [None] * len(cases)
